@@ -46,6 +46,24 @@ Groups == \A c \in Modes : \A w \in 1..NW :
    /\ MS(<<"grp", "title", << <<"+", <<"w", "", w>>>>, <<"+", <<"w", "", 1>>>> >>>>, c) = MS(<<"w", "title", w>>, c) \cap MS(<<"w", "title", 1>>, c)
    /\ MS(<<"w", "", w>>, c) = MS(<<"w", "title", w>>, c) \cup MS(<<"w", "body", w>>, c)           \* default fields
 
+\* chains with markers: where the documentation speaks, the chain reading is the documented one -
+\* AND binds tighter than OR, an exclusion inside an AND group removes documents from that group only
+\* (`a OR -b AND c` = a OR (c AND NOT b)), a chain without markers is the plain expression, and a
+\* chain of juxtaposed operands is the clause list
+Ch3(m1, x, o1, m2, y, o2, m3, z) == <<"chain", << <<m1, x>>, <<m2, y>>, <<m3, z>> >>, <<o1, o2>>>>
+Ch2(m1, x, o1, m2, y) == <<"chain", << <<m1, x>>, <<m2, y>> >>, <<o1>>>>
+ChainDocumented == \A c \in Modes :
+   /\ MS(Ch3("", Atom(q), "OR", "-", A, "AND", "", B), c) = MS(q, c) \cup (MS(B, c) \ MS(A, c))
+   /\ MS(Ch3("", Atom(q), "OR", "", A, "AND", "-", B), c) = MS(q, c) \cup (MS(A, c) \ MS(B, c))
+   /\ MS(Ch3("-", Atom(q), "AND", "", A, "OR", "", B), c) = (MS(A, c) \ MS(q, c)) \cup MS(B, c)
+   /\ MS(Ch3("", B, "OR", "", A, "AND", "-", Atom(q)), c) = MS(B, c) \cup (MS(A, c) \ MS(q, c))
+   /\ MS(Ch2("", Atom(q), "AND", "-", A), c) = MS(q, c) \ MS(A, c)
+   /\ \A o1, o2 \in {"AND", "OR"} : MS(Ch3("", Atom(q), o1, "", A, o2, "", B), c) = MS(<<"bin", <<Atom(q), A, B>>, <<o1, o2>>>>, c)
+   /\ \A m1, m2 \in {"", "+", "-"} : (m1 # "-" \/ m2 # "-") =>
+          MS(Ch2(m1, Atom(q), "", m2, A), c) = MS(<<"bool", << <<m1, Atom(q)>>, <<m2, A>> >>>>, c)
+\* the opposite reading of the seeded kind (the exclusion of `a OR -b AND c` ignored) must fail
+ExclusionIgnored == \A c \in Modes : MS(Ch3("", Atom(q), "OR", "-", A, "AND", "", B), c) = MS(q, c) \cup MS(B, c)
+
 \* the printer
 Styles == {<<0, 0, 0, 0, 0, 0, 0>>, <<1, 2, 3, 4, 5, 6, 7>>, <<3, 1, 0, 2, 7, 5, 4>>, <<2, 2, 1, 1, 0, 3, 5>>}
 Count(t, c) == Cardinality({p \in 1..Len(t) : t[p] = c})
